@@ -333,7 +333,7 @@ example : printList 1 none (wordOpd ['a'])
     = [' ', 'a', ' ', ' ', ' ', 'A', 'N', 'D', ' ', 'b', ' ', 'O', 'R', ' ', ' ', '-', 'c', ' '] := by decide
 example : PlainWord ['b'] ∧ PlainWord ['c'] := ⟨⟨by simp, by decide, by decide⟩, ⟨by simp, by decide, by decide⟩⟩
 
-/-- **print/parse for the nested fragment** (`WFOpd`: plain words, double-quoted phrases without escapes — any characters but `"` and `\` —, either of them with a field prefix `name:` (the name a plain word), `NOT x` of a well-formed operand, and parenthesised operand lists
+/-- **print/parse for the nested fragment** (`WFOpd`: plain words, double-quoted phrases without escapes — any characters but `"` and `\`, optionally followed by a slop `~digits` (below 2^32) or the prefix star —, either of them with a field prefix `name:` (the name a plain word), `NOT x` of a well-formed operand, and parenthesised operand lists
     of well-formed operands, to any depth, each list with `+`/`-` markers, `AND `/`OR ` and any
     layout): the strict parser reads the printed text as the tree the printer's structure denotes —
     at every level the fold (`strictAst`, see `C16_listTree_is_fold`) of the operands' trees —
@@ -375,6 +375,15 @@ example : (fieldWordOpd ['t'] ['a']).text = ['t', ':', 'a']
     ∧ WFOpd (fieldPhraseOpd ['t'] ['a', ' ', 'b']) :=
   ⟨by decide, rfl, .fieldWord _ _ ⟨by simp, by decide, by decide⟩ ⟨by simp, by decide, by decide⟩,
     .fieldPhrase _ _ ⟨by simp, by decide, by decide⟩ (by simp [PhraseBody])⟩
+
+/-- `"a b"~12` and `t:"a"*` are well-formed operands with slop 12 resp. the prefix flag -/
+example : (phraseSfxOpd ['a', ' ', 'b'] (.slop ['1', '2'])).text = ['"', 'a', ' ', 'b', '"', '~', '1', '2']
+    ∧ (phraseSfxOpd ['a', ' ', 'b'] (.slop ['1', '2'])).leaf = .leaf (.literal none ['a', ' ', 'b'] .double 12 false)
+    ∧ WFOpd (phraseSfxOpd ['a', ' ', 'b'] (.slop ['1', '2']))
+    ∧ (fieldPhraseSfxOpd ['t'] ['a'] .pfx).leaf = .leaf (.literal (some ['t']) ['a'] .double 0 true)
+    ∧ WFOpd (fieldPhraseSfxOpd ['t'] ['a'] .pfx) :=
+  ⟨by decide, rfl, .phraseSfx _ _ (by simp [PhraseBody]) ⟨by simp, by decide, by decide⟩, rfl,
+    .fieldPhraseSfx _ _ _ ⟨by simp, by decide, by decide⟩ (by simp [PhraseBody]) trivial⟩
 
 /-- `NOT  t:a` is a well-formed operand, read as the clause `(-t:a)` -/
 example : (notOpd 1 (fieldWordOpd ['t'] ['a'])).text = ['N', 'O', 'T', ' ', ' ', 't', ':', 'a']
